@@ -198,6 +198,45 @@ def torch_mixed(run, classes):
                         run.oracle_ok(site)
 
 
+# --------------------------------------------------------------------------- undeclared fields
+def undeclared_writes(run):
+    """typed fields: a key that is not a declared field is refused by every write spelling (`set`, tuple-key `set`, nested tuple key,
+    attribute assignment), with values of every kind, and the instance is left as it was (model: `set_undeclared_rejects`)."""
+    spellings = [("set", lambda t, v: t.set("zz", v)), ("set-inplace", lambda t, v: t.set("zz", v, inplace=True)),
+                 ("set-tuple", lambda t, v: t.set(("zz",), v)), ("set-nested", lambda t, v: t.set(("n", "zz"), v)),
+                 ("attr", lambda t, v: setattr(t, "zz", v))]
+    values = [("tensor", lambda: torch.zeros(2, 3)), ("str", lambda: "v"), ("none", lambda: None), ("int", lambda: 3)]
+    for clsname in ("D1", "S1", "Ac", "AcS", "Nc", "NcS", "D2"):
+        cls = Z.BEHAVIOUR_CLASSES[clsname]
+        for sname, f in spellings:
+            for vname, mk in values:
+                t = Z.make(cls)
+                before = (B.canon(t._tensordict), dict(t._non_tensordict), sorted(k for k in t.__dict__))
+                case = [clsname, sname, vname]
+                run.case(tuple(case), nontrivial=True)
+                try:
+                    with time_limit(10), warnings.catch_warnings():
+                        warnings.simplefilter("ignore")
+                        f(t, mk())
+                    err = None
+                except TimeoutError:
+                    raise
+                except Exception as e:  # noqa: BLE001
+                    err = e
+                why = None
+                if err is None:
+                    why = "the write of an undeclared field was accepted"
+                elif not isinstance(err, (AttributeError, KeyError)):
+                    why = f"refused with {type(err).__name__} ({str(err)[:60]}), not with the AttributeError of the typed fields"
+                after = (B.canon(t._tensordict), dict(t._non_tensordict), sorted(k for k in t.__dict__))
+                if why is None and after != before:
+                    why = "the refused write changed the instance"
+                if why:
+                    run.oracle_fail("undeclared-field", case, why, fingerprint=f"undeclared:{sname}:{vname}:{why[:40]}")
+                else:
+                    run.oracle_ok("undeclared-field")
+
+
 # --------------------------------------------------------------------------- property setters
 PROPERTY_VALUES = {
     "batch_size": [("shorter", [2]), ("same", [2, 3]), ("torch.Size", torch.Size([2])), ("too-long", [2, 3, 4, 5]), ("wrong", [5])],
